@@ -6,10 +6,7 @@ use std::pin::Pin;
 use std::task::Poll;
 use std::thread;
 
-#[cfg(not(pavex_verif))]
-use tokio::net::TcpStream;
-#[cfg(pavex_verif)]
-use super::sim::TcpStream;
+#[cfg(not(pavex_verif))] use tokio::net::TcpStream;
 use tokio::sync::mpsc::error::TrySendError;
 use tokio::task::{JoinError, JoinSet, LocalSet};
 use tracing_log_error::log_error;
@@ -435,3 +432,6 @@ where
         let _ = completion_notifier.send(());
     }
 }
+
+#[cfg(pavex_verif)]
+use super::sim::TcpStream;
